@@ -201,11 +201,11 @@ def _apply_unit(repo: str, header: str, body_lines: List[str], tpl_name: str) ->
             elif d.startswith("sig:"):
                 sections.append(("sig", d[4:].strip(), []))
             elif d.startswith("for2while"):
-                m = re.match(r"for2while\s+(\d+)(.*)$", d)
+                m = re.match(r"for2while\??\s+(\d+)(.*)$", d)
                 if not m:
                     raise ExtractError("bad for2while in %s/%s: %s" % (tpl_name, uid, d))
                 kvs = _parse_kv(m.group(2))
-                sections.append(("for2while", m.group(1), [kvs.get("seq", "$iter"), kvs.get("elem", "&$s[$i]")]))
+                sections.append(("for2while?" if d.startswith("for2while?") else "for2while", m.group(1), [kvs.get("seq", "$iter"), kvs.get("elem", "&$s[$i]")]))
             elif d.startswith("ret:"):
                 sections.append(("ret", d[4:].strip(), []))
             elif d.startswith("tail:"):
@@ -221,8 +221,9 @@ def _apply_unit(repo: str, header: str, body_lines: List[str], tpl_name: str) ->
                 cur = ("after-loop", k, [])
                 sections.append(cur)
             elif d.startswith("loop"):
-                k = d[4:].strip().rstrip(":").strip()
-                cur = ("loop", k, [])
+                opt = d.startswith("loop?")
+                k = d[5 if opt else 4:].strip().rstrip(":").strip()
+                cur = ("loop?" if opt else "loop", k, [])
                 sections.append(cur)
             elif d.startswith("before") or d.startswith("after"):
                 m = re.match(r"(before|after)\s+(\d+)\s+`([^`]*)`\s*:?", d)
@@ -310,10 +311,17 @@ def _apply_unit(repo: str, header: str, body_lines: List[str], tpl_name: str) ->
             if "\x01" not in whole2:
                 raise ExtractError("%s: rewrite crossed signature/body boundary: %s" % (uid, arg))
             sig, body = whole2.split("\x01", 1)
+    f2w_skipped = set()
     for kind, arg, lines in sections:
-        if kind == "for2while":
-            body = rt.for_to_while(body, int(arg), lines[0], lines[1])
-            info.rewrites.append(("for-to-while loop %s: seq=%s elem=%s" % (arg, lines[0], lines[1]), 1))
+        if kind in ("for2while", "for2while?"):
+            try:
+                body = rt.for_to_while(body, int(arg), lines[0], lines[1])
+                info.rewrites.append(("for-to-while loop %s: seq=%s elem=%s" % (arg, lines[0], lines[1]), 1))
+            except ExtractError:
+                if kind == "for2while":
+                    raise
+                f2w_skipped.add(int(arg))
+                info.rewrites.append(("for-to-while loop %s (optional): not applicable" % arg, 0))
     lifted: List[str] = []
     for kind, arg, lines in sections:
         if kind == "lift":
@@ -351,9 +359,11 @@ def _apply_unit(repo: str, header: str, body_lines: List[str], tpl_name: str) ->
     inserts: List[Tuple[int, str]] = []
     for kind, arg, lines in sections:
         txt = "\n".join(lines)
-        if kind == "loop":
+        if kind in ("loop", "loop?"):
             heads = rt.loop_headers(body)
             k = int(arg)
+            if kind == "loop?" and (len(heads) < k or k in f2w_skipped):
+                continue      # the loop is gone / has another shape: leave it without a contract (Verus then demands one)
             if len(heads) < k:
                 raise ExtractError("%s: loop %d not found in %s (has %d loops)" % (uid, k, info.item, len(heads)))
             inserts.append((heads[k - 1][0], "\n" + txt + "\n"))
